@@ -389,8 +389,10 @@ func splitPeriod(mpd *m.MPD, a *asset, cfg *ResponseConfig, wTimes wrapTimes) er
 		return fmt.Errorf("period duration %ds not a multiple of segment duration %dms", periodDur, a.SegmentDurMS)
 	}
 
-	startPeriodNr := wTimes.startTimeMS / (periodDur * 1000)
-	endPeriodNr := wTimes.nowMS / (periodDur * 1000)
+	// Periods are counted from availabilityStartTime, like Period@start and the media timeline
+	astMS := cfg.StartTimeS * 1000
+	startPeriodNr := (wTimes.startTimeMS - astMS) / (periodDur * 1000)
+	endPeriodNr := (wTimes.nowMS - astMS) / (periodDur * 1000)
 	inPeriod := mpd.Periods[0]
 	nrPeriods := endPeriodNr - startPeriodNr + 1
 	periods := make([]*m.Period, 0, nrPeriods)
